@@ -142,8 +142,20 @@ mod imp {
                         format!("let {} = mk_counter()\nn0 = n0 + {}() + {}()", t, t, t)
                     }
                 },
+                11 if self.rng.chance(1, 2) => {
+                    // a fresh string and a fresh Vec are parked in manual memory ONLY, allocations follow, then they
+                    // are loaded back (buffer slots are roots since /repo 474d1a4)
+                    let b = self.fresh("mb");
+                    let t = self.fresh("t");
+                    let mut mid = String::new();
+                    for _ in 0..1 + self.rng.below(3) {
+                        mid.push_str(&format!("{} = {} + {}\n", self.svar(), self.svar(), self.lit()));
+                    }
+                    format!("let {b} = alloc(3)\nstore({b}, 0, {} + {})\nstore({b}, 1, Vec[{}, {} + {}])\nstore({b}, 2, 7)\n{mid}let {t} = load({b}, 1)\nprintln(load({b}, 0))\nprintln({t}.len() + load({b}, 2))\nprintln({t}[1])\nfree({b})",
+                            self.svar(), self.lit(), self.lit(), self.svar(), self.lit())
+                }
                 11 => {
-                    // manually managed buffer: ints only (what a buffer alone references is outside the guarantee)
+                    // manually managed buffer holding ints
                     let b = self.fresh("buf");
                     let n = 1 + self.rng.below(4);
                     format!("let {b} = alloc({})\nstore({b}, 0, {})\n{} = {} + {}\nn0 = n0 + load({b}, 0)\nfree({b})",
@@ -533,6 +545,7 @@ mod imp {
             //   * the function of EVERY active frame (hook verif_frames, independent of collect),
             //   * the closure object of every active frame (a frame only keeps a raw pointer into it).
             let mut fn_roots: Vec<usize> = pre.roots.clone();
+            fn_roots.extend(pre.vmst.manual.iter().copied()); // slots of live manual buffers (independent of collect)
             fn_roots.extend(pre.frames.iter().map(|f| f.function));
             // registers inside the window each running function DECLARES (not the count the frame happens
             // to record): a live variable is a root whatever the frame record says
@@ -560,6 +573,7 @@ mod imp {
             non_frame_roots.extend(pre.vmst.globals_by_index.iter().flatten());
             non_frame_roots.extend(pre.vmst.open_upvalues.iter());
             non_frame_roots.extend(pre.vmst.current_upvalues.iter());
+            non_frame_roots.extend(pre.vmst.manual.iter());
             for (base, n, _, _) in &pre.vmst.frames {
                 for k in *base..(*base + *n).min(pre.vmst.registers.len()) {
                     if let Some(p) = pre.vmst.registers[k] {
@@ -598,6 +612,17 @@ mod imp {
                 if pre.vmst.globals_by_index.iter().any(|v| v.is_some()) { hit("root:global-by-index".into()); }
                 if !pre.vmst.open_upvalues.is_empty() { hit("root:open-upvalue".into()); }
                 if !pre.vmst.current_upvalues.is_empty() { hit("root:current-upvalue(host call)".into()); }
+                if !pre.vmst.manual.is_empty() { hit("root:manual-buffer-slot".into()); }
+                {
+                    let mut others: Vec<usize> = pre.roots.iter().copied().filter(|r| !pre.vmst.manual.contains(r)).collect();
+                    others.extend(pre.frames.iter().map(|f| f.function));
+                    others.extend(non_frame_roots.iter().copied().filter(|r| !pre.vmst.manual.contains(r)));
+                    let reach_wo = closure_from(&pre_map, &others, true);
+                    if pre.vmst.manual.iter().any(|p| pre_map.contains_key(p) && !reach_wo.contains(p)) {
+                        hit("object-reachable-through-a-manual-buffer-only".into());
+                    }
+                }
+                if pre.vmst.manual_freed_dirty > 0 { hit("non-root:freed-manual-buffer-still-holds-pointer".into()); }
                 if pre.vmst.frames.iter().any(|(b, n, _, _)| (*b..(*b + *n).min(pre.vmst.registers.len())).any(|k| pre.vmst.registers[k].is_some())) {
                     hit("root:register-in-window".into());
                 }
@@ -640,6 +665,8 @@ mod imp {
                         "root"
                     } else if pre.frames.iter().any(|f| f.function == i) {
                         "frame-function"
+                    } else if pre.vmst.manual.contains(&i) {
+                        "manual-buffer-slot"
                     } else if fn_roots.contains(&i) {
                         "register-in-declared-window"
                     } else {
@@ -728,10 +755,10 @@ mod imp {
                 let frames: Vec<String> = st.frames.iter().zip(pre.frames.iter()).map(|((b, n, f, c), a)| format!("mkFrame {} {} {} {} {}", b, n, f,
                     match c { Some(c) => format!("(Some {})", c), None => "None".into() },
                     a.function_num_registers.unwrap_or(*n))).collect();
-                let vmterm = format!("(mkVm {} [{}] {} {} {} {} {})", ol(&st.registers), frames.join(";"),
+                let vmterm = format!("(mkVm {} [{}] {} {} {} {} {} {})", ol(&st.registers), frames.join(";"),
                                      nl(st.globals.iter().copied()), ol(&st.globals_by_index),
                                      nl(st.open_upvalues.iter().copied()), nl(st.current_upvalues.iter().copied()),
-                                     nl(st.globals_cache.iter().copied()));
+                                     nl(st.globals_cache.iter().copied()), nl(st.manual.iter().copied()));
                 let q = format!("QVmCollect {} (mkHeap [{}] {})", vmterm, slots.join(";"), nl(pre.free.iter().rev().copied()));
                 let cache_after = vm.verif_vm_state().globals_cache;
                 let mut free_sorted = free2.clone();
